@@ -320,7 +320,7 @@ def is_valid(version_str: str, raw_pattern: str = "vYYYY.BUILD[-TAG]") -> bool:
     try:
         parse_version_info(version_str, raw_pattern)
         return True
-    except version.PatternError:
+    except (version.PatternError, ValueError):
         return False
 
 
